@@ -11,6 +11,8 @@ NoCx == {FALSE}
 NoKo == {0}
 NoHost == {FALSE}
 NoDup == {FALSE}
+NoPreview == {}
+AllPreviews == {"intro", "same"}
 KoOnly == {1, 2}
 
 \* Behaviour export (Task = "sig"): one JSON line per state reached by >= 1
@@ -19,7 +21,7 @@ KoOnly == {1, 2}
 \* binding, parameters that must be passed explicitly, the spec's own
 \* re-emitted call).
 SigBehaviour ==
-  [kinds |-> Kinds, sig0 |-> sig0, sig1 |-> sig, chg |-> chg,
+  [kinds |-> Kinds, sig0 |-> sig0, sig1 |-> sig, chg |-> chg, pre |-> pre,
    sites |-> { [c0 |-> c0, c1 |-> calls[c0], b0 |-> Binding(sig0, c0),
                 exp |-> exp[c0], expl |-> expl[c0]] : c0 \in DOMAIN calls }]
 ExportSig == (Task = "sig" /\ chg # <<>>) => PrintT(<<"BEH", ToJson(SigBehaviour)>>)
